@@ -188,6 +188,11 @@ func (evm *EVM) Call(caller ContractRef, addr common.Address, input []byte, gas 
 		snapshot = evm.StateDB.Snapshot()
 	)
 	if !evm.StateDB.Exist(addr) {
+		if PrecompiledContractsByzantium[addr] == nil && value.Sign() == 0 {
+			// Calling a non existing account without value: there is nothing to run and
+			// nothing to transfer, and the state (also under STATICCALL) must not change.
+			return nil, gas, nil
+		}
 		evm.StateDB.CreateAccount(addr)
 	}
 
